@@ -39,8 +39,8 @@ from vlib import SplitMix
 VERIF, REPO, COQ, BUILD = vlib.VERIF, vlib.REPO, vlib.COQ, vlib.BUILD
 OTLP_V = ['Otlp/OtlpBase.v', 'Otlp/PData.v', 'Otlp/Record.v', 'Otlp/Image.v', 'Otlp/ToStef.v',
           'Otlp/FromStef.v', 'Otlp/Traces.v', 'Otlp/OtlpBaseFacts.v', 'Otlp/ToStefFacts.v',
-          'Otlp/FromStefFacts.v', 'Otlp/RoundTripFacts.v', 'Otlp/SortedFacts.v', 'Otlp/TracesFacts.v',
-          'Otlp/RefutedFacts.v']
+          'Otlp/FromStefFacts.v', 'Otlp/RoundTripFacts.v', 'Otlp/SortedFacts.v', 'Otlp/SortedRoundTripFacts.v',
+          'Otlp/TracesFacts.v', 'Otlp/RefutedFacts.v']
 NEGZ, POSZ = 'f8000000000000000', 'f0000000000000000'
 
 
